@@ -193,7 +193,7 @@ func runC11(a *A) {
 	a.Rule("shape/keyword-case", 3, func() { a.ruleKeywordCase() })
 	a.Rule("flow/no-state-between-list-items", 12, func() { a.ruleNoStateBetweenListItems("rsql") })
 	a.Rule("tables/clause-terminators", 12, func() { a.ruleClauseTerminators() })
-	a.Rule("term/caps-scale-with-input", 7, func() { a.ruleCapsScaleWithInput() })
+	a.Rule("term/caps-scale-with-input", 5, func() { a.ruleCapsScaleWithInput() })
 	a.Rule("flow/accumulated-text-consumed", 6, func() { a.ruleAccumulatedTextConsumed() })
 	a.Rule("flow/alias-default-before-use", 1, func() { a.ruleAliasDefaultBeforeUse() })
 	a.Rule("shape/layout-and-case", 2, func() {
